@@ -239,3 +239,7 @@ func RunNative(t *testing.T, harnesses map[string]func()) {
 		t.Fatal(err)
 	}
 }
+
+// Noop does nothing; the engine hands it out where a stubbed library call
+// has to return a func() (context cancel functions).
+func Noop() {}
